@@ -45,6 +45,7 @@ struct OsWorld {
               pending_signal(0), sigchld_first(false), interrupts_left(0), open_fds(0), external_tokens_left(0), told_token_available(false), fifo_read_tried(false), fa_dup_to_1(-1), fa_dup_to_2(-1), fa_stdin_null(false), at_flags(0), at_sigmask(false) {}
 };
 static OsWorld* g_os;
+static double g_os_load; static double g_os_last_reported_load;
 static RunnerOpts g_os_opts;
 static const char* kFifoPath = "/verif.jobs.fifo";
 
@@ -217,6 +218,10 @@ int OSFN(posix_spawn)(pid_t* pid, const char* path, const posix_spawn_file_actio
   int running = os_running();
   if (g_os->fifo_exists && g_os->fifo_r >= 0) VERIF_ASSERT(running < 1 + g_os->fifo_taken - g_os->fifo_returned, "C06: never more commands running than jobserver tokens held");
   else VERIF_ASSERT(running < g_os_opts.parallelism, "C06: never more commands running than -j allows");
+#ifdef LOAD_LIMIT
+  VERIF_ASSERT(running == 0 || g_os_last_reported_load <= LOAD_LIMIT, "C06: with -l N no further command is started while the load average exceeds N");
+  if (running > 0) verif_reach("started-under-load-limit"); if (g_os_last_reported_load > LOAD_LIMIT) verif_reach("started-alone-despite-load");
+#endif
   { int same = 0; for (size_t i = 0; i < g_os->procs.size(); i++) if (!g_os->procs[i].exited && g_ref[g_os->procs[i].ref].pool_name == e.pool_name) same++;
     if (e.pool_depth > 0) VERIF_ASSERT(same < e.pool_depth, "C06: never more commands of a pool running than its depth"); }
   for (size_t i = 0; i < e.reads.size(); i++) {
@@ -274,9 +279,14 @@ int OSFN(kill)(pid_t pid, int sig) {
     p->to_write.clear(); os_proc_exit(*p); }
   return 0;
 }
+// ------------------------------------------------------------------------------------------------ the load average (ninja -l N): changes while ninja waits, reported when asked
+int OSFN(getloadavg)(double* out, int n) { for (int i = 0; i < n; i++) out[i] = g_os_load; g_os_last_reported_load = g_os_load; return n; }
 // ------------------------------------------------------------------------------------------------ the scheduler: what happens while ninja waits
 int OSFN(ppoll)(struct pollfd* fds, nfds_t nfds, const struct timespec*, const sigset_t*) {
   if (verif_vfs_frozen()) g_dead = true;
+#ifdef LOAD_LIMIT
+  g_os_load = verif_bool("machine_is_loaded") ? 50.0 : 0.0;      // whatever else runs on the machine: the load average after this wait
+#endif
   // the previous poll returned with nothing but "a jobserver token is available": ninja must have tried to take it before it waits again
   if (g_os->told_token_available) { VERIF_ASSERT(g_os->fifo_read_tried, "C06: told that a jobserver token is available while a command is startable, ninja takes it instead of going back to wait (no slot idles, the build finishes)"); g_os->told_token_available = false; }
   // another client of the jobserver returns a token to the pool while ninja is waiting for one
@@ -337,7 +347,10 @@ int OSFN(ppoll)(struct pollfd* fds, nfds_t nfds, const struct timespec*, const s
 }
 // one invocation = one process: a fresh world
 static void os_begin(const RunnerOpts& o, int fifo_tokens) {
-  g_os = new OsWorld; g_os_opts = o; g_os->interrupts_left = o.may_interrupt ? 1 : 0;
+  g_os = new OsWorld; g_os_opts = o; g_os_load = 0.0; g_os_last_reported_load = 0.0;
+#ifdef LOAD_LIMIT
+  g_os_load = verif_bool("machine_is_loaded") ? 50.0 : 0.0;
+#endif g_os->interrupts_left = o.may_interrupt ? 1 : 0;
   g_os->sigchld_first = verif_bool("sigchld_interrupts_poll_first");
   if (fifo_tokens >= 0) { g_os->fifo_exists = true; g_os->external_tokens_left = 1; for (int i = 0; i < fifo_tokens; i++) g_os->fifo.push_back((unsigned char)('a' + i)); g_os->fifo_tokens = fifo_tokens; }
 }
